@@ -232,3 +232,95 @@ M('c17-drop-position-check', 'C17', """        assert self._position == self._wr
 T('c17-twin-fnf-unlink', 'C17', """            except (FileNotFoundError, PermissionError):
                 # FileNotFoundError: file might already be removed by another process""", """            except (PermissionError, FileNotFoundError):
                 # FileNotFoundError: file might already be removed by another process""")
+
+# ------------------------------------------------------------------------------------------------ C09
+M('c09-d3-revert-no-truncate', 'C09', """                        pack_handle.seek(position_before)
+                        pack_handle.truncate()
+""", """                        pack_handle.seek(position_before)
+""", 'C09.R3')
+M('c09-stage-known', 'C09', """                        pack_handle.seek(position_before)
+                        pack_handle.truncate()
+                    else:""", """                        pack_handle.seek(position_before)
+                        pack_handle.truncate()
+                        obj_dicts.append(obj_dict)
+                    else:""", 'C09.R4')
+M('c09-skip-return-on-known', 'C09', """                                hashkeys.append(obj_dict['hashkey'])
+                                continue""", """                                continue""", 'C09.R4')
+M('c09-dont-remember-new', 'C09', """                        if no_holes:
+                            known_packed_hashkeys.add(obj_dict['hashkey'])
+""", """                        if no_holes and compress:
+                            known_packed_hashkeys.add(obj_dict['hashkey'])
+""", 'C09.R4')
+M('c09-drop-difference-update', 'C09', """        loose_objects.difference_update(existing_packed_hashkeys)
+        # Now, I should be left only""", """        # Now, I should be left only""", 'C09.R2')
+M('c09-drop-or-ignore', 'C09', """                        Obj.__table__.insert().prefix_with(  # pylint: disable=no-member
+                            'OR IGNORE'
+                        ),""", """                        Obj.__table__.insert(),""", 'C09.R5')
+M('c09-not-unique', 'C09', "hashkey = Column(String, nullable=False, unique=True, index=True)", "hashkey = Column(String, nullable=False, index=True)", 'C09.R5', D)
+M('c09-trust-existing', 'C09', """                    if self._trust_existing:
+                        # I trust that the object is correct: I just return""", """                    if True:
+                        # I trust that the object is correct: I just return""", 'C09.R1', U)
+M('c09-keep-bad-copy', 'C09', """                    if existing_checksum is None:
+                        return
+                    # If we are here, the file exists and has the wrong checksum. I mark this condition
+                    exists_wrong_checksum = True""", """                    if existing_checksum is None:
+                        return
+                    return""", 'C09.R1', U)
+M('c09-uuid-in-loose-name', 'C09', "                    dest_loose_object = self._loose_folder / self._hashkey\n", "                    dest_loose_object = self._loose_folder / (self._hashkey + uuid.uuid4().hex[:0])\n", 'C09.R1', U)
+M('c09-seed-a-known-rebind', 'C09', """                for _, hashkey in results_chunk:
+                    known_packed_hashkeys.add(hashkey)
+""", """                known_packed_hashkeys = {hashkey for _, hashkey in results_chunk}
+""", 'C09.R4')
+M('c09-import-no-holes-false', 'C09', """            no_holes = True
+            no_holes_read_twice = True
+            # `hashkeys` might be""", """            no_holes = False
+            no_holes_read_twice = True
+            # `hashkeys` might be""", 'C09.R6')
+T('c09-twin-truncate-then-tell', 'C09', """                        pack_handle.seek(position_before)
+                        pack_handle.truncate()
+""", """                        pack_handle.seek(position_before)
+                        pack_handle.truncate()
+                        _pos = pack_handle.tell()
+""")
+T('c09-twin-known-update', 'C09', """                for _, hashkey in results_chunk:
+                    known_packed_hashkeys.add(hashkey)
+""", """                known_packed_hashkeys.update(hashkey for _, hashkey in results_chunk)
+""")
+
+# ------------------------------------------------------------------------------------------------ C13
+M('c13-open-wb', 'C13', "                with open(pack_file, 'ab') as pack_handle:", "                with open(pack_file, 'r+b') as pack_handle:", 'C13.R1')
+M('c13-start-at-zero-size', 'C13', "            if size < self.pack_size_target:", "            if size <= self.pack_size_target:", 'C13.R2s')
+M('c13-start-max', 'C13', "        pack_id = self._current_pack_id or 0\n", "        pack_id = max([int(p) for p in self._list_packs()] or [0])\n", 'C13.R2s')
+M('c13-advance-two', 'C13', "            pack_id += 1\n\n        # Cache the value", "            pack_id += 2\n\n        # Cache the value", 'C13.R2s')
+M('c13-consult-once', 'C13', """                    pack_int_id = self._get_pack_id_to_write_to(known_sizes={pack_int_id: pack_handle.tell()})
+                    if pack_int_id != last_pack_int_id:
+                        # new pack file needed!""", """                    if False:
+                        # new pack file needed!""", 'C13.R2')
+M('c13-no-known-size', 'C13', """                    # Update the known size for the current pack before checking which pack to use
+                    pack_int_id = self._get_pack_id_to_write_to(known_sizes={pack_int_id: pack_handle.tell()})""", """                    # Update the known size for the current pack before checking which pack to use
+                    pack_int_id = self._get_pack_id_to_write_to()""", 'C13.R2')
+M('c13-seek-zero', 'C13', "                        pack_handle.seek(position_before)\n", "                        pack_handle.seek(0)\n", 'C13.R3')
+M('c13-unlink-pack-in-clean', 'C13', """        loose_objects = set(self._list_loose())
+        # Force reload of the session to get the most up-to-date packed objects
+        self.close()
+""", """        loose_objects = set(self._list_loose())
+        for _pid in self._list_packs():
+            if self._get_pack_path_from_pack_id(_pid).stat().st_size == 0:
+                os.remove(self._get_pack_path_from_pack_id(_pid))
+        # Force reload of the session to get the most up-to-date packed objects
+        self.close()
+""", 'C13.R4')
+M('c13-seed-b-size-counter', 'C13', """                    pack_int_id = self._get_pack_id_to_write_to(known_sizes={pack_int_id: pack_handle.tell()})
+                    if pack_int_id != last_pack_int_id:
+                        # new pack file needed!""", """                    pack_int_id = self._get_pack_id_to_write_to(known_sizes={pack_int_id: loose_size if obj_dicts else 0})
+                    if pack_int_id != last_pack_int_id:
+                        # new pack file needed!""", 'C13.R2')
+T('c13-twin-cached-tell', 'C13', """                    pack_int_id = self._get_pack_id_to_write_to(known_sizes={pack_int_id: pack_handle.tell()})
+                    if pack_int_id != last_pack_int_id:
+                        # new pack file needed!""", """                    current_size = pack_handle.tell()
+                    pack_int_id = self._get_pack_id_to_write_to(known_sizes={pack_int_id: current_size})
+                    if pack_int_id != last_pack_int_id:
+                        # new pack file needed!""")
+T('c13-twin-eq-else', 'C13', """                    if pack_int_id != last_pack_int_id:
+                        # Break from the inner while loop. This will:""", """                    if not (pack_int_id == last_pack_int_id):
+                        # Break from the inner while loop. This will:""")
